@@ -29,4 +29,24 @@ theorem default_tables_state_inbounds :
     OF_defaultDTable.all (fun c => c.nextState + 2 ^ c.nbBits ≤ 2 ^ OF_DEFAULTNORMLOG) = true ∧
     ML_defaultDTable.all (fun c => c.nextState + 2 ^ c.nbBits ≤ 2 ^ ML_DEFAULTNORMLOG) = true := by decide
 
+
+/-! ### decoding paths -/
+
+open DStream Stream in
+/-- **streaming_path_eq_oneShot**: the streaming decoding path (model of ZSTD_decompressStream over ZSTD_decompressContinue: internal input / output
+buffers, output ring with restarts, single-pass shortcut, hostage byte) yields, under ANY segmentation of input and output, exactly the content
+the one-shot path yields for the same frames; the model is compared with the real code on every call of every generated history -/
+theorem streaming_path_eq_oneShot (all : List FrameD) (content : List Nat) (hok : AllOk all)
+    (hlen : content.length = regenAll all) (io : List (Nat × Nat)) (hf : Feasible all (State.start all) io)
+    (hdone : (({} : DState).run (calls content (State.start all) io)).produced = content.length) :
+    (({} : DState).run (calls content (State.start all) io)).output = content :=
+  DStream.model_any_segmentation_eq_oneShot all content hok hlen io hf hdone
+
+open TableSafe in
+/-- the predefined decoding tables (dumped from the source on every run) keep every FSE state inside the table -/
+theorem default_tables_closed :
+    SeqClosed Gen.LL_defaultDTable.toArray Gen.LL_DEFAULTNORMLOG ∧ SeqClosed Gen.OF_defaultDTable.toArray Gen.OF_DEFAULTNORMLOG ∧
+    SeqClosed Gen.ML_defaultDTable.toArray Gen.ML_DEFAULTNORMLOG :=
+  TableSafe.default_tables_closed
+
 end ZstdVerif.Props.C04
